@@ -91,8 +91,8 @@ pub const C01: HistCheck = HistCheck {
     cfg: general,
     nontrivial: |f| (f.partial_fills + f.replenishments) >= 1 && f.op_on_touched_order_or_second_match(),
     rule: "stateful histories (add / match / cancel / price move / quantity amend / price+quantity / replace / read / rebuild through 7 paths; all 7 order types; small and 64-bit-boundary quantity profiles incl. 0) interpreted on a real PriceLevel; after EVERY operation visible/hidden/count/total and the snapshot's figures are compared with the sums over iter_orders() and bounded by everything ever supplied. Non-trivial = the history has a match that partially fills or replenishes an order and a later operation (amend, cancel, move, another match, rebuild) on that same order; distinct = 64-bit hash of the history.",
-    quick: 60_000,
-    thorough: 3_000_000,
+    quick: 300_000,
+    thorough: 12_000_000,
     twin_without_reads: false,
     assumptions: &["order.price == level price; ids unique among resting orders; sums fit in u64 (DESIGN §8)"],
 };
@@ -103,8 +103,8 @@ pub const C02: HistCheck = HistCheck {
     cfg: no_rebuild,
     nontrivial: |f| f.sweep_multi || f.multi_round_same_order || f.second_match_on_partial,
     rule: "stateful histories as C01 without rebuilds (one transaction-id generator per history); every match result is audited: executed+remaining==requested, is_complete<=>remaining==0, every transaction has quantity>0, the level price, the taker id, a maker resting at that moment (trace-driven model), the opposite side, a never-seen transaction id; lifetime fills of an order <= what it supplied (adjusted by amendments); filled_order_ids == makers that traded and are no longer listed. Plus MatchResult built incrementally (second generator). Non-trivial = a match that trades >=2 orders or the same order in >=2 rounds, or a second match on a previously partially filled order.",
-    quick: 60_000,
-    thorough: 3_000_000,
+    quick: 300_000,
+    thorough: 12_000_000,
     twin_without_reads: false,
     assumptions: &["the model follows the observed makers, so queue-order deviations (C04) do not affect this check"],
 };
@@ -115,8 +115,8 @@ pub const C04: HistCheck = HistCheck {
     cfg: c04_cfg,
     nontrivial: |f| f.match_with_3_resting && f.matches >= 2 && f.match_after_event,
     rule: "stateful histories of adds, matches of all size kinds, cancels, re-adds of earlier ids, same-price amendments (positive quantities, all 7 types) ending in a draining match; ideal arrival ranks: fresh rank on add and on replenishment from hidden, kept on partial fill and same-price amend; at every transaction no other resting order with displayed quantity may have a smaller rank than the maker. Pairs explained by the listed known findings (KF-C04-1 waiting order was re-queued at the tail by an earlier match; KF-C04-2 the maker's id has a stale/duplicate ticket) are counted, everything else is a violation. Non-trivial = >=3 orders resting at some match, >=2 matches, one of them after a replenishment, an amendment or a re-add.",
-    quick: 60_000,
-    thorough: 3_000_000,
+    quick: 300_000,
+    thorough: 12_000_000,
     twin_without_reads: false,
     assumptions: &["known-finding attribution is by monotone flags (DESIGN §C04 limitation)"],
 };
@@ -140,8 +140,8 @@ pub const C06: HistCheck = HistCheck {
     cfg: c06_cfg,
     nontrivial: |f| f.zero_display_at_match || f.three_round_match,
     rule: "stateful histories with zero quantities allowed (zero-quantity adds, amend-to-0, reserve replenish amount 0), iceberg/reserve-heavy; every match_order runs under a budget of shared-memory steps derived from the number of resting orders, tickets and replenishment rounds a correct sweep needs (exceeding it = non-termination, detected without wall clock); after each match executed >= min(requested, displayed before) and remaining>0 implies no listed order displays quantity. Non-trivial = a match issued while an order with display 0 and hidden>0 rests, or a match with >=3 replenishments.",
-    quick: 60_000,
-    thorough: 3_000_000,
+    quick: 300_000,
+    thorough: 12_000_000,
     twin_without_reads: false,
     assumptions: &["match sizes are clamped so that a correct sweep needs <= ~120 replenishment rounds (DESIGN §C06)"],
 };
@@ -152,8 +152,8 @@ pub const C07: HistCheck = HistCheck {
     cfg: c07_cfg,
     nontrivial: |f| f.update_on_touched_order,
     rule: "stateful histories mixing all five update kinds (present/absent ids, same/other price) with adds, matches and read-only calls; cancel/move must return the model's current order field for field and remove only it; absent id => Ok(None) and identical fingerprint; same-price UpdatePrice => Err and identical fingerprint; same-price amend returns the order now listed (new display for Standard/PostOnly/Iceberg, either for the other four), others untouched; every read-only call leaves the fingerprint (price, aggregates, listing, statistics) unchanged; metamorphic twins: (1) the same history with all reads deleted must give identical results for every other operation; (2) the same history with an extra order added and removed again right away (cancel / move / price+quantity / replace to another price) at a generated point must give identical results for every other operation and the same final listing. Non-trivial = an update applied to an order after a partial fill or replenishment.",
-    quick: 60_000,
-    thorough: 2_000_000,
+    quick: 240_000,
+    thorough: 8_000_000,
     twin_without_reads: true,
     assumptions: &["for TrailingStop/Pegged/MarketToLimit/Reserve a same-price amend may keep or change the display (statement leaves it open; existing tests pin the no-op)"],
 };
@@ -164,8 +164,8 @@ pub const C15: HistCheck = HistCheck {
     cfg: c15_cfg,
     nontrivial: |f| f.sweep_multi && f.removals >= 1,
     rule: "sequential half: stateful histories on a fresh level (positive quantities, no rebuild); after every operation orders_added == adds, orders_removed == successful cancels+moves, quantity_executed == sum of transaction quantities, value_executed == that x level price. Concurrent half: thread programs under the deterministic scheduler (see sched engine). Non-trivial (sequential) = a match trading several orders plus at least one removal.",
-    quick: 40_000,
-    thorough: 2_000_000,
+    quick: 200_000,
+    thorough: 8_000_000,
     twin_without_reads: false,
     assumptions: &["order.price == level price (DESIGN §8)"],
 };
@@ -272,8 +272,11 @@ pub fn eval(hc: &HistCheck, h: &History, st: &mut Stats, excuse: (bool, bool)) -
                 ));
             }
             if !it3.dead {
-                let fa: Vec<_> = it.level.iter_orders().iter().map(|o| **o).collect();
-                let fb: Vec<_> = it3.level.iter_orders().iter().map(|o| **o).collect();
+                // as sets: the order of equal-timestamp orders in a listing is unspecified
+                let mut fa: Vec<_> = it.level.iter_orders().iter().map(|o| **o).collect();
+                let mut fb: Vec<_> = it3.level.iter_orders().iter().map(|o| **o).collect();
+                fa.sort_by_key(|o| o.id().to_string());
+                fb.sort_by_key(|o| o.id().to_string());
                 if fa != fb {
                     return Err("adding an extra order and removing it again right away changes the final listing".into());
                 }
